@@ -31,6 +31,9 @@ pub struct PhysMem {
     pub garbage_seed: u64,
     /// Some(zone seed): frames outside the table zones (data memory) read as zero instead of garbage
     pub zero_data: Option<u64>,
+    /// stale memory without a single word that looks PRESENT (bit 0 clear everywhere, never zero):
+    /// arrays of aligned pointers, 0xaa fills ...
+    pub even_garbage: bool,
 }
 
 unsafe impl Send for PhysMem {}
@@ -71,7 +74,12 @@ impl PhysMem {
                 return 0;
             }
         }
-        garbage_word(self.garbage_seed, frame_no, idx)
+        let g = garbage_word(self.garbage_seed, frame_no, idx);
+        if self.even_garbage {
+            let e = g & !1;
+            return if e == 0 { 0xaaaa_aaaa_aaaa_aaa0 } else { e };
+        }
+        g
     }
 
     pub fn new() -> PhysMem {
@@ -94,7 +102,7 @@ impl PhysMem {
             if arena == libc::MAP_FAILED {
                 die("arena mmap");
             }
-            PhysMem { fd, arena: arena as *mut u8, slots: BTreeMap::new(), next_slot: 0, garbage_seed: 0, zero_data: None }
+            PhysMem { fd, arena: arena as *mut u8, slots: BTreeMap::new(), next_slot: 0, garbage_seed: 0, zero_data: None, even_garbage: false }
         }
     }
 
@@ -223,7 +231,8 @@ impl PhysMem {
         let p = self.commit(pa) as *mut u64;
         unsafe {
             for i in 0..512 {
-                p.add(i).write_volatile(garbage_word(self.garbage_seed ^ salt.wrapping_mul(0xA24B_AED4_963E_E407), fno, i));
+                let g = garbage_word(self.garbage_seed ^ salt.wrapping_mul(0xA24B_AED4_963E_E407), fno, i);
+                p.add(i).write_volatile(if self.even_garbage { (g & !1) | 0x10 } else { g });
             }
         }
     }
